@@ -138,7 +138,7 @@ def _compare(sy, hs, as_, pre, tag=""):
             for nm in ("dloc", "loc@1"):
                 out.append((f"pid={pid}/{nm}", mh, ma, opts))
             continue
-        lim = {k: (limit0(R.lift(h[k]), sy.eps, pre), limit0(R.lift(a[k]), sy.eps, pre)) for k in ("reg", "sing", "loc")}
+        lim = {k: (_checked_limit(sy, h[k], pre, f"{tag}/pid={pid}/massive {k}"), _checked_limit(sy, a[k], pre, f"{tag}/pid={pid}/asymptotic {k}")) for k in ("reg", "sing", "loc")}
         out.append((f"pid={pid}/reg+sing", lim["reg"][0] + lim["sing"][0], lim["reg"][1] + lim["sing"][1], opts))
         dloc = R.lift(lim["loc"][0] - lim["loc"][1])
         dsing = R.lift(lim["sing"][0] - lim["sing"][1])
@@ -156,6 +156,56 @@ def _compare(sy, hs, as_, pre, tag=""):
         at1 = [limit0(subst(R.lift(v), sy.z, 1 - delta), delta, pre1) for v in lim["loc"]]
         out.append((f"pid={pid}/loc@1", at1[0], at1[1], opts))
     return out
+
+
+class LimitSelfCheckError(Exception):
+    pass
+
+
+SELFCHECKS = [0]
+
+
+def _checked_limit(sy, v, pre, what):
+    """limit0 with an engine self-check: the limit form evaluated at LOG_EPS = log(eps0) must agree
+    with the ORIGINAL symbolic term evaluated at eps = eps0 (eps0 = 1e-6, random admissible z, Q2, x;
+    uninterpreted atoms get the same pseudo-values on both sides) up to the O(eps log^k eps) the
+    lemma allows.  A disagreement is a defect of the limit engine: the case becomes undecided."""
+    import math
+
+    from pvc.core import find_witness
+    from pvc.numeval import evalf
+
+    v = R.lift(v)
+    lim = limit0(v, sy.eps, pre)
+    if v.is_const:
+        return lim
+    eps0 = 1e-6
+    env = find_witness(R.const(0), R.const(1), [c for c in pre if not _mentions(c, sy.eps)], tries=200, seed=7)
+    if env:
+        env.pop("_lhs", None), env.pop("_rhs", None)
+        env["eps"] = eps0
+        env["LOG_EPS"] = math.log(eps0)
+        class PseudoValues(dict):
+            """any uninterpreted name -> deterministic pseudo-value of (name, evaluated arguments)"""
+
+            def __contains__(self, name):
+                return True
+
+            def __getitem__(self, name):
+                import zlib
+
+                return lambda *args: 0.25 + (zlib.crc32(repr((name,) + tuple(round(float(x), 9) if isinstance(x, (int, float)) else x for x in args)).encode()) % 10007) / 10007.0
+
+        try:
+            a = evalf(v, dict(env), ufs=PseudoValues())
+            b = evalf(R.lift(lim), dict(env), ufs=PseudoValues())
+        except Exception:  # noqa  (a function outside its float domain at the random point: no verdict)
+            return lim
+        SELFCHECKS[0] += 1
+        scale = max(1.0, abs(a), abs(b))
+        if not abs(a - b) <= 2e-3 * scale:
+            raise LimitSelfCheckError(f"limit engine self-check failed for {what}: term at eps=1e-6 = {a!r}, limit form = {b!r}")
+    return lim
 
 
 def _mentions(cond, var):
@@ -251,6 +301,8 @@ def _intrinsic_worker(sub, item):
     case = intrinsic_case(*item)
     sub.check(f"C08/intrinsic/{process}/{kind}/ihq={ihq}/order={order}", case, sy, _pre(sy, "CC"), tol=TAU)
     _soft_standin(sub, f"C08/intrinsic/{process}/{kind}/ihq={ihq}/order={order}", case, sy)
+    sub.extra["limit_selfchecks"] = sub.extra.get("limit_selfchecks", 0) + SELFCHECKS[0]
+    SELFCHECKS[0] = 0
 
 
 def _soft_standin(sub, name, case, sy):
@@ -329,6 +381,46 @@ def _heavy_worker(sub, item):
     case = heavy_case(*item)
     sub.check(f"C08/heavy/{process}/{kind}/ihq={ihq}/order={order}", case, sy, _pre(sy, process), tol=TAU)
     _soft_standin(sub, f"C08/heavy/{process}/{kind}/ihq={ihq}/order={order}", case, sy)
+    sub.extra["limit_selfchecks"] = sub.extra.get("limit_selfchecks", 0) + SELFCHECKS[0]
+    SELFCHECKS[0] = 0
+
+
+def sec_missing(rep, tier):
+    """'Missing' diagrams (a light quark couples to the boson, the heavy quark runs in the loop):
+    heavy.kernels.generate_missing vs asy.kernels.generate_missing_asy.  Their O(a_s^2) coefficient
+    functions are LeProHQ tables (Adler spline) -- out of reach -- but the statement 'the difference
+    vanishes for any PDF' needs, before anything else, that every asymptotic kernel carries the parton
+    weights of the massive kernel it replaces: decided here for every heavy flavour / nf / kind."""
+    from yadism.coefficient_functions import heavy
+    from yadism.coefficient_functions.asy import kernels as asyk
+
+    rep.under_contract(heavy.kernels.generate_missing, asyk.generate_missing_asy)
+    sy = H.Sy()
+    for kind in ("F2", "FL", "F3", "g1"):
+        for nf in (3, 4, 5):
+            for ihq in range(nf + 1, 7):
+                for pto_evol in (1, 2):
+                    rep.cases += 1
+
+                    def case(sy, kind=kind, nf=nf, ihq=ihq, pto_evol=pto_evol):
+                        cfg = _cfg(sy, "NC", pto_evol)
+                        esf = H.FakeESF(sy.x, sy.Q2, H.obs_name(kind, "light"), cfg)
+                        with rebind(*_binds(sy)):
+                            try:
+                                hk = heavy.kernels.generate_missing(esf, nf, ihq)
+                                ak = asyk.generate_missing_asy(esf, nf, ihq, pto_evol)
+                            except NotImplementedError:
+                                return [("explicitly unavailable", True, True)]
+                        out = [("one massive kernel, one asymptotic kernel per logarithmic accuracy", (len(hk), len(ak)), (1, pto_evol + 1))]
+                        if len(hk) == 1:
+                            w = hk[0].partons
+                            for i, k in enumerate(ak):
+                                out.append((f"asymptotic kernel {i}: same partons", sorted(k.partons), sorted(w)))
+                                for pid in sorted(set(w) & set(k.partons)):
+                                    out.append((f"asymptotic kernel {i}: weight[{pid}]", k.partons[pid], w[pid]))
+                        return out
+
+                    rep.check(f"C08/missing/weights/{kind}/nf={nf}/ihq={ihq}/pto_evol={pto_evol}", case, sy, [sy.x > 0, sy.x < 1, sy.Q2 > 0] + sy.mass_pre())
 
 
 def sec_selfcheck(rep):
@@ -345,9 +437,10 @@ def sec_selfcheck(rep):
         ("log(z+eps) -> log z", fn("log", z + e), fn("log", z)),
         ("eps*log(eps) -> 0", e * fn("log", e), R.const(0)),
         ("log(eps*z/(1+eps)) -> LOG_EPS + log z", fn("log", e * z / (1 + e)), LOG_EPS + fn("log", z)),
-        ("(sqrt(1+4eps)-1)/eps -> 2  via 0/0 cancellation is refused", None, None),
+        ("(sqrt(1+4eps)-1)/eps: numerator with a hidden zero over eps is refused (no value)", None, None),
         ("log(1+2eps-sqrt(1+4eps)) -> 2 LOG_EPS + log 2  (conjugate rule: (1+2e)^2-(1+4e) = 4e^2)", fn("log", 1 + 2 * e - sq), 2 * LOG_EPS + fn("log", R.const(2))),
         ("li2(1/(1+eps)) -> pi^2/6", fn("li2", 1 / (1 + e)), R.const(3.141592653589793) ** 2 / 6),
+        ("eps/(sqrt(1+4eps)-1) -> 1/2  (hidden zero of a denominator: rationalised, not 0)", e / (sq - 1), R.const(1) / 2),
         ("li2(-1/eps) -> -pi^2/6 - LOG_EPS^2/2", fn("li2", -1 / e), -(R.const(3.141592653589793) ** 2) / 6 - LOG_EPS * LOG_EPS / 2),
     ]
     for name, t, exp in good:
@@ -383,7 +476,7 @@ def sec_selfcheck(rep):
 
 
 def run(rep, tier, seed, only=None):
-    secs = {"heavy": lambda: sec_heavy(rep, tier), "intrinsic": lambda: sec_intrinsic(rep, tier), "selfcheck": lambda: sec_selfcheck(rep)}
+    secs = {"heavy": lambda: sec_heavy(rep, tier), "intrinsic": lambda: sec_intrinsic(rep, tier), "missing": lambda: sec_missing(rep, tier), "selfcheck": lambda: sec_selfcheck(rep)}
     for name, f in secs.items():
         if only and only not in name:
             continue
